@@ -13,7 +13,7 @@ from e1_paths import CFG, peel_cond, single_def
 from report import Check
 
 UNITS = ["src/Neigh/ANeigh.cpp", "src/Neigh/NeighMoving.cpp", "src/Neigh/NeighBench.cpp", "src/Neigh/NeighCell.cpp",
-         "src/Neigh/NeighUnique.cpp", "src/Neigh/NeighImage.cpp"]
+         "src/Neigh/NeighUnique.cpp", "src/Neigh/NeighImage.cpp", "src/Tree/neighbors_heap.cpp"]
 
 # function -> (candidate variable, required gates).  Gate names are resolved by GATES below.
 TABLE = {
@@ -139,13 +139,71 @@ def bipts_loop(f, chk):
            key="C06|NeighMoving::_moving|bipts-set")
 
 
+def sort_rule(prog, chk):
+    """C06s - the sort that puts the k nearest neighbours in increasing distance order (simultaneous_sort, a quicksort):
+    each recursive call on a sub-range of length L must be made exactly when L > 1 (ranges of length 0 or 1 are sorted,
+    every longer one must be sorted).  Guard and length are integer expressions of the same locals: their equivalence is
+    decided by exhaustive exact evaluation (E6) over every (size, pivot position) up to 64."""
+    from e6_abseval import Interp, Unsupported
+    from fractions import Fraction
+    f = prog.fn("simultaneous_sort")
+    chk.analysed(f)
+    rec = [c for c in f.calls() if c["k"] == "Call" and c.get("callee") == "simultaneous_sort"]
+    if len(rec) < 2:
+        raise facts.AnalysisBroken("simultaneous_sort: recursive calls not found")
+    size_d = f.params[2]["d"]
+    n = 0
+    for c in rec:
+        length = call_args(c)[2]
+        guard = None
+        child = c
+        for a in f.ancestors(c):
+            if a["k"] == "If" and len(a["c"]) >= 2 and a["c"][1] is child:
+                guard = a["c"][0]
+                break
+            child = a
+        n += 1
+        if guard is None:
+            chk.ob("C06s", "simultaneous_sort: the recursive call `%s` is guarded" % show(c)[:50], f.loc(c), False,
+                   detail="unguarded recursion", key="C06s|simultaneous_sort|%s" % show(length)[:25])
+            continue
+        free = sorted({(y["d"], y["n"]) for e in (guard, length) for y in walk(e) if y["k"] == "DeclRefExpr" and y.get("dk") in ("var", "parm")})
+        others = [v for v in free if v[0] != size_d]
+        if len(others) > 1:
+            raise facts.AnalysisBroken("simultaneous_sort: guard over unexpected variables %s" % free)
+        bad = None
+        try:
+            for size in range(4, 65):
+                for p in range(0, size):          # the pivot ends at a position 0 .. size-1
+                    env = {size_d: Fraction(size)}
+                    if others:
+                        env[others[0][0]] = Fraction(p)
+                    gv = Interp(env).truth(Interp(env).ev(guard))
+                    lv = Interp(env).ev(length)
+                    if gv != (lv > 1):
+                        bad = (size, p, gv, lv)
+                        break
+                if bad:
+                    break
+        except Unsupported as e:
+            raise facts.AnalysisBroken("simultaneous_sort: guard outside the integer fragment: %s" % e)
+        ok = bad is None
+        chk.ob("C06s", "simultaneous_sort: the sub-range of length `%s` is sorted exactly when it has more than one element (guard `%s`)" % (
+                   show(length)[:30], show(guard)[:30]), f.loc(c), ok,
+               detail=None if ok else "for size = %d and the pivot at position %d the sub-range has %s elements but the guard is %s: it is left unsorted, "
+               "so the k nearest neighbours are not returned in increasing distance order" % (bad[0], bad[1], bad[3], bad[2]),
+               key="C06s|simultaneous_sort|%s" % show(length)[:25])
+    chk.floor("C06s", n, 2)
+
+
 def main(tier):
     chk = Check("C06", tier,
                 "Static admission-gate completeness of the neighbourhood searches (moving, bench, cell, unique): the statement "
                 "recording a candidate is reachable only through the pass edges of the activity, definedness, cross-validation, "
                 "pair-checker and distance tests for that candidate, on every CFG path including the ball-tree path; fewer than nmini "
-                "candidates give the empty result. Sector assignment, quotas, closest-first ordering and k-nearest correctness of "
-                "the ball tree are NOT decided.")
+                "candidates give the empty result; the quicksort that orders the k nearest neighbours of the ball tree recurses on a "
+                "sub-range exactly when it has more than one element. Sector assignment, quotas, closest-first ordering of the moving "
+                "search and the selection of the k nearest by the ball tree are NOT decided.")
     units = [os.path.join(REPO, u) for u in UNITS]
     d = extract(units, "C06-" + tier)
     prog = Program().load_dir(d)
@@ -216,4 +274,5 @@ def main(tier):
                detail=None if w is None else "success is returned without testing the number of candidates against getNMini()",
                key="C06|%s|nmini" % fname, path=None if w is None else g.describe(w))
     chk.floor("C06", n, 19)
+    sort_rule(prog, chk)
     return chk.finish()
